@@ -172,7 +172,7 @@ def join_spec(draw) -> dict[str, Any]:
 def spec_strategy():
     return st.one_of(
         join_spec(), join_spec(),
-        dag_spec(max_stages=7, allow=("multi", "fail", "cof", "poll", "skip"), joins=("AND", "AND", "DISC", "NOFM", "OR")),
+        dag_spec(max_stages=7, allow=("multi", "fail", "cof", "stop", "poll", "skip"), joins=("AND", "AND", "DISC", "NOFM", "OR")),
         st.sampled_from(list(core_corpus().values())),
         loop_spec(),
     )
